@@ -39,6 +39,25 @@ def queries(tier):
         qs.append(Query("pipe-reap-order-holders%d" % extra, "c14/pipe_reap.c", tus=TUS, env=PENV, defs={"EXTRA": extra}, unwind=30, timeout=300, group="c14/pipe_reap.c",
                         params={"kernel": "nni_pipe_close / pipe_reap / nni_pipe_find / rele / pipe_destroy", "other_reference_holders": extra, "looked_up_id": "any 32-bit value"}))
     qs += inproc_ep_queries(tier)
+    qs += tran_listener_queries(tier)
+    return qs
+
+
+def tran_listener_queries(tier):
+    """the accept loop of the tcp / ipc transport listener (real tcp.c / ipc.c endpoint code): no failure leaves the listener deaf"""
+    from vp import skel
+    qs = []
+    LENV = ["env_alloc.c", "env_misc.c", "env_sync.c", "env_aio.c", "env_msg.c", "env_pipe.c", "env_libc.c"]
+    words = ["U(0) C0 N(1) Z", "U(0) CM T C0 N(1)", "U(0) CF T U(1) CM T C0 N(1)", "U(0) CA U(1) C0 N(1)", "U(0) CP T U(1) C0 N(1)", "U(0) C0 C0 N(1) N(1) U(1)",
+             "U(0) C0 N(0) U(1) C0 N(1)", "U(0) C0 C0 N(0) N(1)", "U(0) CM Z", "U(0) C0 Z", "U(0) CM T CM T", "U(0) C0 N(1) C0 N(1) U(1) Z", "U(0) Z U(1)",
+             "U(0) CA CA CM T CA", "U(0) CP T CP T C0 N(1) U(1)", "U(0) C0 CM T N(1)"]
+    if tier != "quick":
+        words += ["U(0) CF T CF T CF T", "U(0) C0 C0 C0 N(1) N(0) N(1) U(1) U(2)", "U(0) CM U(1) T C0 N(1)", "U(0) C0 N(1) U(1) CM T Z", "U(0) CA Z", "U(0) CP Z"]
+    for tr, tn in ((0, "tcp"), (2, "ipc")):
+        for w in words:
+            qs.append(Query("%s-listener-%s" % (tn, skel.tag(w)), "c14/tran_listener.c", tus=["core/list.c", "core/options.c"], env=LENV, defs={"TRAN": tr, "SKEL": w},
+                            cdefs=["-DENV_MSG_CAP=8"], unwind=12, unwind_rules=KIT_RULES, timeout=300, group="c14/tran_listener.c-" + tn,
+                            params={"unit": "sp/transport/%s/%s.c listener endpoint" % (tn, tn), "skeleton": w}))
     return qs
 
 
